@@ -239,8 +239,9 @@ def _run_property(prop, tier, seed, cfg, sdir, t0):
     want = baseline.get(prop, [])
     have = set(o['id'] for o in obligations)
     lost = [w for w in want if w not in have]
-    n_obl = len(obligations)
-    n_dis = len([o for o in obligations if o['status'] == 'discharged'])
+    # bounded stand-ins are listed but never counted as proved
+    n_obl = len([o for o in obligations if not o.get('bounded')])
+    n_dis = len([o for o in obligations if o['status'] == 'discharged' and not o.get('bounded')])
     not_run = [o['id'] for o in obligations if o['status'] == 'not-run']
     wall = time.time() - t0
     bounded = [o['id'] for o in obligations if o.get('bounded')]
@@ -256,7 +257,7 @@ def _run_property(prop, tier, seed, cfg, sdir, t0):
             'solver_time_ms': smt_ms, 'verus_wall_s': round(wall_verus, 2),
             'samples': [{'obligation': o['id'], 'function': o['fn'], 'source': o['src'], 'kind': o['kind'], 'status': o['status'],
                          **({'bounded': o['bounded']} if o.get('bounded') else {})} for o in obligations[:400]],
-            'bounded_obligations': bounded,
+            'bounded_obligations': [{'obligation': o['id'], 'status': o['status'], 'bound': o['bounded']} for o in obligations if o.get('bounded')],
             'rewrites_applied': rewrites[:400], 'dropped_from_extracted_text': dropped[:100], 'source_hashes': hashes[:200],
             'seeds_run': len(seeds), 'unstable': unstable,
             'bounded_checks': bounded_info, 'bounded_checks_bound': replay_run.BOUNDS if bounded_info else '',
